@@ -2,6 +2,7 @@ package depack
 
 import (
 	"fmt"
+	"os"
 	"runtime"
 	"strconv"
 	"strings"
@@ -39,7 +40,15 @@ var (
 // state a hang.  It costs nothing when the event arrives; it is deliberately far beyond anything a
 // loaded machine can delay a runnable goroutine.  A hang is reported once, then Stopped is set and
 // the runners stop generating: the hung goroutine cannot be killed.
-var HangBudget = 300 * time.Second
+var HangBudget = hangBudget()
+
+// VERIF_HANG_BUDGET_S shortens the budget for the harness's own self-tests (mutants that hang)
+func hangBudget() time.Duration {
+	if v, err := strconv.Atoi(os.Getenv("VERIF_HANG_BUDGET_S")); err == nil && v > 0 {
+		return time.Duration(v) * time.Second
+	}
+	return 300 * time.Second
+}
 
 // Stopped is set after a confirmed hang
 var Stopped bool
